@@ -65,6 +65,7 @@ def gen_spec(seed, tier):
         programs.append(simgen.gen_client_program(rng, w, t, calcs, shots, n_ops, raising))
         roles[str(t)] = "client"
     cfg = simgen.gen_engine_config(rng, tier, ntasks)
+    simgen.tame_for_line_mode(programs, cfg)
     if rng.random() < 0.3:
         programs.append(simgen.gen_admin_perturb_program(rng, rng.randint(2, 6)))
         roles[str(len(programs) - 1)] = "admin"
